@@ -1,6 +1,7 @@
 package main
 
 import (
+	"go/ast"
 	"fmt"
 	"go/token"
 	"go/types"
@@ -69,6 +70,10 @@ func c12Asserts(c *Ctx) {
 				g := fi.GuardsOf(ta)
 				if labelHas(g, "T(ok(assert("+d+","+tt+")))") {
 					c.OK(key, rule, w.InstrPos(ta))
+					continue
+				}
+				if c12PoolGet(w, fn, ta) {
+					c.OK(key, rule+" (sync.Pool whose New returns exactly that type)", w.InstrPos(ta))
 					continue
 				}
 				if ok, why := c12FilterSummary(w, fn, ta); ok {
@@ -416,7 +421,7 @@ func c12NilableDerefs(c *Ctx) {
 				continue
 			}
 			fa, ok := ld.X.(*ssa.FieldAddr)
-			if !ok || namedOf(fa.X.Type()) != "ngo/verifier.verifier" {
+			if !ok || namedOf(fa.X.Type()) != w.verifierTypeName() {
 				continue
 			}
 			if !call.Call.IsInvoke() {
@@ -517,7 +522,7 @@ func c12CtorNonNil(w *World, field int) bool {
 					continue
 				}
 				fa, ok := st.Addr.(*ssa.FieldAddr)
-				if !ok || namedOf(fa.X.Type()) != "ngo/verifier.verifier" || fa.Field != field {
+				if !ok || namedOf(fa.X.Type()) != w.verifierTypeName() || fa.Field != field {
 					continue
 				}
 				good := fi.nonNil(st.Val, b)
@@ -966,4 +971,45 @@ func c12Redecode(w *World, fn *ssa.Function, call ssa.CallInstruction) bool {
 		}
 	}
 	return n > 0
+}
+
+// c12PoolGet: `pool.Get().(T)` on a package-level sync.Pool whose New function returns a value of type T and
+// into which only values of type T are Put: the assertion cannot fail.
+func c12PoolGet(w *World, fn *ssa.Function, ta *ssa.TypeAssert) bool {
+	call, ok := ta.X.(*ssa.Call)
+	if !ok || calleeName(call) != "(*sync.Pool).Get" {
+		return false
+	}
+	g, ok := call.Call.Args[0].(*ssa.Global)
+	if !ok || g.Pkg == nil {
+		return false
+	}
+	rel := strings.TrimPrefix(strings.TrimPrefix(g.Pkg.Pkg.Path(), modPath), "/")
+	e, p := w.pkgVarInit(rel, g.Name())
+	if e == nil {
+		return false
+	}
+	nf, ok := structLitField(e, "New").(*ast.FuncLit)
+	if !ok || len(nf.Body.List) != 1 {
+		return false
+	}
+	ret, ok := nf.Body.List[0].(*ast.ReturnStmt)
+	if !ok || len(ret.Results) != 1 {
+		return false
+	}
+	tv, ok := p.TypesInfo.Types[ret.Results[0]]
+	if !ok || !types.Identical(tv.Type, ta.AssertedType) {
+		return false
+	}
+	// every Put into that pool passes a value of the same type
+	for _, f := range w.Funcs {
+		for _, ci := range allCalls(f) {
+			if calleeName(ci) == "(*sync.Pool).Put" && ci.Common().Args[0] == ssa.Value(g) {
+				if !types.Identical(unwrap(ci.Common().Args[1]).Type(), ta.AssertedType) {
+					return false
+				}
+			}
+		}
+	}
+	return true
 }
